@@ -137,6 +137,9 @@ def replay(path):
             return 1
         print("not reproduced: clause %s holds on this tree for this schedule" % data.get("clause"))
         return 0
+    if data.get("kind") == "queue":
+        import queuecheck
+        return queuecheck.replay(data, path)
     import ctlcheck
     return ctlcheck.replay(data, path)
 
